@@ -1,5 +1,6 @@
 // gencert writes keys/<name>.key and keys/<name>.crt: an RSA-2048 key under a self-signed certificate with the given validity window.
-// Usage: go run ./tools/gencert <name> <notBefore RFC3339> <notAfter RFC3339>
+// Usage: go run ./tools/gencert <name> <notBefore RFC3339> <notAfter RFC3339> [ca | issued-by:<ca fixture name>]
+// "ca" makes a self-signed CA certificate; "issued-by:x" makes a leaf signed by the CA fixture keys/x.{key,crt}.
 // (the fixtures idpnext / idpfar / idpold / idpancient were made with it; fixtures are committed, the checks never generate keys)
 package main
 
@@ -12,11 +13,12 @@ import (
 	"fmt"
 	"math/big"
 	"os"
+	"strings"
 	"time"
 )
 
 func main() {
-	if len(os.Args) != 4 {
+	if len(os.Args) != 4 && len(os.Args) != 5 {
 		fmt.Fprintln(os.Stderr, "usage: gencert <name> <notBefore> <notAfter>")
 		os.Exit(2)
 	}
@@ -35,7 +37,28 @@ func main() {
 	}
 	tpl := &x509.Certificate{SerialNumber: big.NewInt(time.Now().UnixNano()), Subject: pkix.Name{CommonName: name + ".verif.example"},
 		NotBefore: nb, NotAfter: na, KeyUsage: x509.KeyUsageDigitalSignature, BasicConstraintsValid: true}
-	der, err := x509.CreateCertificate(rand.Reader, tpl, tpl, &k.PublicKey, k)
+	parent, signer := tpl, interface{}(k)
+	if len(os.Args) == 5 {
+		if os.Args[4] == "ca" {
+			tpl.IsCA = true
+			tpl.KeyUsage = x509.KeyUsageCertSign | x509.KeyUsageDigitalSignature
+		} else if ca, ok := strings.CutPrefix(os.Args[4], "issued-by:"); ok {
+			cb, _ := os.ReadFile("keys/" + ca + ".crt")
+			kb, _ := os.ReadFile("keys/" + ca + ".key")
+			cblk, _ := pem.Decode(cb)
+			kblk, _ := pem.Decode(kb)
+			pc, err := x509.ParseCertificate(cblk.Bytes)
+			if err != nil {
+				panic(err)
+			}
+			pk, err := x509.ParsePKCS8PrivateKey(kblk.Bytes)
+			if err != nil {
+				panic(err)
+			}
+			parent, signer = pc, pk
+		}
+	}
+	der, err := x509.CreateCertificate(rand.Reader, tpl, parent, &k.PublicKey, signer)
 	if err != nil {
 		panic(err)
 	}
